@@ -42,10 +42,31 @@ pub enum Op {
     MakeMut(usize),
     TryUnwrap(usize),
     Merge(usize), // thread t runs QueueHandle::run_explicit_merge()
+    /// interleaving: thread t runs `base` (0 clone, 1 drop, 2 get_mut); at its k-th shared access
+    /// (before/after) thread u runs `fop` to completion.  Needs hook H1 (steel_rc::verif_hook).
+    Il { t: usize, base: u8, k: u32, after: bool, u: usize, fop: u8 },
 }
 
 impl Op {
     fn parse(s: &str) -> Op {
+        // "drop@1[2a:clone@3]"
+        if let Some(i) = s.find('[') {
+            let base = Op::parse(&s[..i]);
+            let inner = &s[i + 1..s.len() - 1];
+            let (at, f) = inner.split_once(':').unwrap();
+            let after = at.ends_with('a');
+            let k: u32 = at[..at.len() - 1].parse().unwrap();
+            let fop = Op::parse(f);
+            let code = |o: &Op| match o {
+                Op::Clone(t) => (0u8, *t),
+                Op::Drop(t) => (1, *t),
+                Op::GetMut(t) => (2, *t),
+                _ => panic!("unsupported in interleaving"),
+            };
+            let (b, t) = code(&base);
+            let (fo, u) = code(&fop);
+            return Op::Il { t, base: b, k, after, u, fop: fo };
+        }
         let (name, rest) = s.split_once('@').expect("op@t");
         let mut it = rest.split('>');
         let t: usize = it.next().unwrap().parse().unwrap();
@@ -69,6 +90,10 @@ impl Op {
             Op::MakeMut(t) => format!("make_mut@{}", t),
             Op::TryUnwrap(t) => format!("try_unwrap@{}", t),
             Op::Merge(t) => format!("merge@{}", t),
+            Op::Il { t, base, k, after, u, fop } => {
+                let n = |c: &u8| ["clone", "drop", "get_mut"][*c as usize];
+                format!("{}@{}[{}{}:{}@{}]", n(base), t, k, if *after { "a" } else { "b" }, n(fop), u)
+            }
         }
     }
 }
@@ -85,6 +110,8 @@ enum Cmd {
     Take(BiasedRc<P>),
     Peek,
     Quit,
+    /// run Clone/Drop/GetMut (0/1/2) with the interleaving callback installed
+    Hooked(u8),
 }
 #[derive(Debug, Default, Clone, Copy)]
 struct Reply {
@@ -94,9 +121,46 @@ struct Reply {
     panicked: bool,
 }
 
+thread_local! {
+    static IL_ACCESS: std::cell::Cell<u32> = const { std::cell::Cell::new(0) };
+}
+struct IlPlan {
+    k: u32,
+    after: bool,
+    cmd: u8,
+    tx: Sender<Cmd>,
+    rx: Arc<Mutex<Receiver<Reply>>>,
+    reply: Option<Reply>,
+}
+static IL_PLAN: Mutex<Option<IlPlan>> = Mutex::new(None);
+
+#[cfg(steel_verif)]
+fn il_callback(id: u32) {
+    if id == crate::verif_hook::BEFORE_ACCESS {
+        IL_ACCESS.with(|c| c.set(c.get() + 1));
+    }
+    let n = IL_ACCESS.with(|c| c.get());
+    let mut g = IL_PLAN.lock().unwrap();
+    let fire = match g.as_ref() {
+        Some(p) => p.reply.is_none() && p.k == n && p.after == (id == crate::verif_hook::AFTER_ACCESS),
+        None => false,
+    };
+    if fire {
+        let p = g.as_mut().unwrap();
+        let cmd = match p.cmd {
+            0 => Cmd::Clone,
+            1 => Cmd::Drop,
+            _ => Cmd::GetMut,
+        };
+        p.tx.send(cmd).unwrap();
+        let r = p.rx.lock().unwrap().recv().unwrap();
+        p.reply = Some(r);
+    }
+}
+
 struct Worker {
     tx: Sender<Cmd>,
-    rx: Receiver<Reply>,
+    rx: Arc<Mutex<Receiver<Reply>>>,
     join: Option<std::thread::JoinHandle<()>>,
     tid: Arc<AtomicUsize>,
     panicked: std::cell::Cell<bool>,
@@ -153,6 +217,26 @@ fn spawn_worker() -> Worker {
                 Cmd::Take(h) => mine.push(h),
                 Cmd::Peek => r.value = mine.last().map(|h| h.0).unwrap_or(0),
                 Cmd::Quit => {}
+                Cmd::Hooked(base) => {
+                    #[cfg(steel_verif)]
+                    {
+                        IL_ACCESS.with(|c| c.set(0));
+                        crate::verif_hook::set(Some(il_callback));
+                    }
+                    match base {
+                        0 => {
+                            let c = mine.last().unwrap().clone();
+                            mine.push(c)
+                        }
+                        1 => drop(mine.pop().unwrap()),
+                        _ => {
+                            let h = mine.last_mut().unwrap();
+                            r.flag = BiasedRc::get_mut(h).is_some();
+                        }
+                    }
+                    #[cfg(steel_verif)]
+                    crate::verif_hook::set(None);
+                }
             }
             }));
             if res.is_err() {
@@ -164,13 +248,13 @@ fn spawn_worker() -> Worker {
     while tid.load(Ordering::SeqCst) == 0 {
         std::thread::yield_now();
     }
-    Worker { tx, rx, join: Some(join), tid, panicked: std::cell::Cell::new(false) }
+    Worker { tx, rx: Arc::new(Mutex::new(rx)), join: Some(join), tid, panicked: std::cell::Cell::new(false) }
 }
 
 impl Worker {
     fn call(&self, c: Cmd) -> Reply {
         self.tx.send(c).unwrap();
-        let r = self.rx.recv().unwrap();
+        let r = self.rx.lock().unwrap().recv().unwrap();
         if r.panicked {
             self.panicked.set(true);
         }
@@ -252,6 +336,7 @@ impl World {
             // an explicit merge with an entry for a destroyed box is exactly the
             // use-after-free we want valgrind to see: allowed only in `run` mode
             Op::Merge(t) => t == 1 && !self.gone,
+            Op::Il { t, u, .. } => !self.gone && t != u && self.h[t - 1] >= 1 && self.h[u - 1] >= 1 && self.copies[t - 1] == 0 && self.copies[u - 1] == 0,
         }
     }
     /// Executes one real operation and checks the natively observable oracle.
@@ -308,6 +393,35 @@ impl World {
             }
             Op::Merge(t) => {
                 self.w[t - 1].call(Cmd::Merge);
+            }
+            Op::Il { t, base, k, after, u, fop } => {
+                *IL_PLAN.lock().unwrap() = Some(IlPlan { k, after, cmd: fop, tx: self.w[u - 1].tx.clone(), rx: self.w[u - 1].rx.clone(), reply: None });
+                if base == 1 {
+                    self.h[t - 1] -= 1;
+                }
+                let r = self.w[t - 1].call(Cmd::Hooked(base));
+                let plan = IL_PLAN.lock().unwrap().take().unwrap();
+                let fired = plan.reply.is_some();
+                if fired {
+                    match fop {
+                        0 => self.h[u - 1] += 1,
+                        1 => self.h[u - 1] -= 1,
+                        _ => {
+                            if plan.reply.unwrap().flag && before_total != 1 {
+                                self.failure = Some(format!("exclusive access granted to thread {} while {} references exist (interleaved)", u, before_total));
+                            }
+                        }
+                    }
+                }
+                if base == 0 {
+                    self.h[t - 1] += 1;
+                }
+                if base == 2 && r.flag && self.total() != 1 {
+                    self.failure = Some(format!("exclusive access granted to thread {} while {} references exist (interleaved)", t, self.total()));
+                }
+                if !fired {
+                    self.failure.get_or_insert(format!("interleaving point {}{} not reached on this tree", k, if after { "a" } else { "b" }));
+                }
             }
         }
         if self.w.iter().any(|w| w.panicked.get()) {
@@ -544,6 +658,13 @@ fn search() {
         Some(mut hist) => {
             println!("PRESTATE-HISTORY: {}", show_hist(&hist));
             hist.push(op);
+            if let Op::Il { .. } = op {
+                // not executed here: the interleaved access may write into freed memory; the
+                // history is executed once, under valgrind, by `run`
+                println!("HISTORY: {}", show_hist(&hist));
+                println!("EXPECTED: the analysed operation touches the box after the interleaved operation freed it, or an oracle failure");
+                return;
+            }
             match continue_to_failure(&hist, 3) {
                 Some((h, why)) => {
                     println!("HISTORY: {}", show_hist(&h));
